@@ -10,7 +10,7 @@ import subprocess
 import sys
 import tempfile
 
-from .. import gen, inject, probes
+from .. import gen, inject, probes, longrun
 from ..core import REPO
 from ..ref import bip32 as rb32, bip39 as rb39, paper as rpaper, addr as raddr, path as rpath
 from .c14 import leaves
@@ -28,7 +28,7 @@ RULE = ("argv grammar over the five sub-commands and the global options with val
         "to file, dangling symlink, missing parent, file-as-parent; option order permutations, duplicated options, missing "
         "command, unknown options); each argv run in-process (audit hook + probes) and a sample as real subprocesses (directory "
         "diff, some under strace); distinct = distinct (monitor, case) digests"
-        " EXTENSIONS: + decoy sibling files (target.tmp, target~, .target.swp ...) that must survive, symlinks with relative targets named from another directory / chained / to the parent directory, accounts equal to meaningful numbers, values wrapping modulo 2^32, reversed straddling intervals")
+        " EXTENSIONS: + decoy sibling files (target.tmp, target~, .target.swp ...) that must survive, symlinks with relative targets named from another directory / chained / to the parent directory, accounts equal to meaningful numbers, values wrapping modulo 2^32, reversed straddling intervals, the request handed to PaperWallet.generate for intervals of K-1 .. 2K+1 rows per harvested K and of 2^31 rows (recorder; mismatch confirmed end to end in fast mode)")
 LEVEL_TEXT = ("Outcome-based monitor on real CLI executions: a non-zero exit must come with no wallet data on stdout and no "
               "file created or modified (directory diff + audit 'open' events + strace on a sample); exit 0 must print/save JSON "
               "identical to what the library API returns for the same secret/network/account/interval (through an independent "
@@ -710,9 +710,84 @@ def run(ctx):
                 judge_run(ctx, c, "subprocess")
     finally:
         inst.remove()
+    # listings far longer than a run can afford to derive: what the command line hands to the API for intervals of K-1 .. 2K+1
+    # rows, K every threshold written down in the code under test (vpkg.harvest / vpkg.longrun), and of 2^31 rows
+    from .. import longrun
+    lens = [n for _, n in longrun.lengths(ctx, wide=True)] + [H - 1, H]
+    for j, n in enumerate(lens):
+        if ctx.mine(j):
+            for s in {0, 5, H - n}:
+                if 0 <= s and s + n <= H:
+                    judge_cli_request(ctx, {"seed": gen.rbytes(rnd, 64), "testnet": bool(j & 1), "account": rnd.choice([0, 3]), "start": s, "n": n,
+                                            "paranoia": rnd.random() < 0.3})
+    ctx.extra["harvested_thresholds"] = longrun.thresholds()
+
+
+def judge_cli_request(ctx, case):
+    """An accepted argument vector must give what PaperWallet.generate(account, interval) gives for the SAME interval.  For
+    intervals no run can afford to derive, the request the command line hands to the API is observed instead (a recorder
+    around the real PaperWallet.generate, which then serves a one-row listing): exactly one request, for exactly the account
+    and interval on the command line.  A differing request is CONFIRMED end to end before it counts (the command and the API
+    run in full in fast mode, inject.FastEC, and their JSON is compared); runs in which the command line does not use
+    PaperWallet.generate exactly once are not judged by this monitor."""
+    from btc_hd_wallet.paper_wallet import PaperWallet
+    import btc_hd_wallet.bip32 as b32
+    s, n, acct, tn = case["start"], case["n"], case["account"], case["testnet"]
+    argv = ["--interval", str(s), str(s + n), "--account", str(acct)] + (["--testnet"] if tn else []) + (["--paranoia"] if case.get("paranoia") else []) + \
+           ["from-bip39-seed", case["seed"].hex()]
+    calls = []
+    orig = PaperWallet.__dict__["generate"]
+
+    def recorder(self, *a, **kw):
+        account = kw.get("account", a[0] if a else 0)
+        interval = kw.get("interval", a[1] if len(a) > 1 else (0, 20))
+        calls.append((account, tuple(interval) if isinstance(interval, (list, tuple)) else interval))
+        return orig(self, account=account, interval=(s, s + 1))
+    d = tempfile.mkdtemp(prefix="vp-c20r-")
+    try:
+        PaperWallet.generate = recorder
+        try:
+            res = run_inproc(argv, d, {})
+        finally:
+            PaperWallet.generate = orig
+        ctx.reach("inproc")
+        cls = "request|n%d|s%s|%s" % (n, "0" if s == 0 else ("top" if s + n == H else "mid"), "paranoia" if case.get("paranoia") else "full")
+        if res["rc"] != 0:
+            return ctx.judge("cli_request", False, dict(case, argv=argv), "exit 0", {"rc": res["rc"], "stderr": res["stderr"][-200:]}, cls=cls,
+                             mech="C20.request.legal_interval_refused")
+        if len(calls) != 1:
+            ctx.extra["cli_request_runs_not_judged"] = ctx.extra.get("cli_request_runs_not_judged", 0) + 1
+            return None
+        want = (acct, (s, s + n))
+        if calls[0] == want:
+            return ctx.judge("cli_request", True, dict(case, argv=argv), want, calls[0], cls=cls)
+        # confirm end to end (fast mode; only worth it when affordable)
+        if not longrun.affordable(ctx, "wallet", 6 * n, budget_quick=600.0, budget_thorough=3000.0):
+            ctx.extra["cli_request_mismatch_not_confirmable"] = ctx.extra.get("cli_request_mismatch_not_confirmable", 0) + 1
+            return None
+        from .. import inject
+        with inject.FastEC([b32], variety=61):
+            res2 = run_inproc(argv, d, {})
+            api = PaperWallet.from_bip39_seed_hex(bip39_seed=case["seed"].hex(), testnet=tn).generate(account=acct, interval=(s, s + n))
+        want_json = json.loads(json.dumps(api))
+        if case.get("paranoia"):
+            want_json = rpaper.paranoia(want_json)
+        try:
+            got = json.loads(res2["stdout"])
+        except ValueError:
+            got = None
+        same = res2["rc"] == 0 and got == want_json
+        rows = {k: len(v.get("groups", [])) for k, v in (got or {}).items() if isinstance(v, dict) and "groups" in v}
+        return ctx.judge("cli_request", same, dict(case, argv=argv), {"request": want, "rows_per_section": n},
+                         {"request": calls[0], "rc": res2["rc"], "rows_per_section": rows}, cls=cls, mech="C20.request.differs_from_command_line")
+    finally:
+        shutil.rmtree(d, ignore_errors=True)
 
 
 def replay(ctx, monitor, case):
+    if monitor == "cli_request":
+        case.pop("argv", None)
+        return judge_cli_request(ctx, case)
     inst = install_probes()
     try:
         mode = case.pop("mode", "inproc")
